@@ -23,6 +23,12 @@ def scenarios(quick):
     for ct in (4, 5, 6):
         fns = [[fn(4, "R0", "E1", True), fn(2, "R1", None, True), fn(1, "R1")]]
         out.append(scenario([retry(2, dly=3), to(3)], fns, [start(1, 0, True), env("AsyncCancel", ct, 1)], readers=True))
+    for ev_, st in (("OnFailure", [retry(2, dly=2)]), ("OnRetryScheduled", [retry(2, dly=2)]), ("OnFailure", [fb(), retry(1, dly=1)]),
+                    ("OnRetry", [retry(2, dly=2)]), ("OnFailure", [retry(1, dly=1), to(9)])):
+        fns = [[fn(1, "R0", "E1", True)] * 4]
+        at = 3 if ev_ == "OnRetry" else 1
+        out.append(scenario(st, fns, [start(1, 0, True), env("AsyncCancel", at, 1, id="in:" + ev_)], readers=True))
+        out.append(scenario(st, fns, [start(1, 0, False), env("CtxCancel", at, 1, id="in:" + ev_)]))
     for ct in (1, 2):
         for oc in (("R0", "E1"), ("R1", None)):
             fns = [[fn(5, oc[0], oc[1], False), fn(1, "R1")]]
